@@ -339,8 +339,18 @@ def body_ivp(case, ctx):
     no_deriv = bool(case["no_deriv"]) and has_tf
     xs = np.linspace(a, b, NPTS)
 
+    # with as_array the SAME float64 array of initial values is handed to every solve of this case (through the
+    # transform first, then directly): the caller's array must come back untouched, otherwise the later solves see
+    # other initial data
+    y0_shared = np.array(y0, dtype=float) if case["as_array"] else None
+
     def solve(transform, nd):
-        return solve_ode_ivp(span, fx, lib_coefs, list(y0), transform, method=case["method"], no_derivatives=nd, rtol=tol, atol=tol)
+        y0_arg = y0_shared if y0_shared is not None else list(y0)
+        res = solve_ode_ivp(span, fx, lib_coefs, y0_arg, transform, method=case["method"], no_derivatives=nd, rtol=tol, atol=tol)
+        if y0_shared is not None and not np.array_equal(y0_shared, np.array(y0, dtype=float)):
+            ctx.fail("ivp-initial-data-array-modified", f"solve_ode_ivp changed the caller's y0 array from {y0} to {y0_shared.tolist()} (transform {tf})")
+            y0_shared[...] = y0
+        return res
 
     try:
         f_t = solve(tfobj, no_deriv)
